@@ -103,3 +103,31 @@ Example C12_example :
   /\ canon (bs "ACG") 4 = Ok []
   /\ lexmin (bs "GT") (rcseq (bs "GT")) = bs "AC".
 Proof. vm_compute. repeat split; repeat constructor. Qed.
+
+(* ---- tie to the Go source by translation of whole function bodies (gen/ImpGen.v, written
+   by `harness gen-imp` on every run, in the embedding of Model/GoSem.v) ------------------- *)
+From Bio.gen Require ImpGen.
+From Bio.Model Require GoSem.
+From Bio.Proofs Require ImpProofs ImpProofsB.
+
+(* The model's ReverseComplement is, for every dst and every byte sequence, the function
+   translated from sequtil.go: the same bytes, or a panic in the same cases. *)
+Theorem C12_reverse_complement_is_source : forall dst src, ImpProofs.all_bytes src ->
+  ImpGen.imp_sequtil_ReverseComplement dst src = ImpProofs.of_outcome (rc dst src).
+Proof. exact ImpProofs.imp_ReverseComplement. Qed.
+Print Assumptions C12_reverse_complement_is_source.
+
+(* The items of the model's CanonicalSubsequences are, for every sequence and every k
+   (negative included), the items that the translated iterator body yields. *)
+Theorem C12_canonical_is_source : forall s k, ImpProofs.all_bytes s ->
+  ImpGen.imp_sequtil_CanonicalSubsequences s k = ImpProofs.of_outcome (canon s k).
+Proof. exact ImpProofsB.imp_CanonicalSubsequences. Qed.
+Print Assumptions C12_canonical_is_source.
+
+Example C12_source_example :
+  ImpGen.imp_sequtil_ReverseComplement [7] (bs "aCgN") = GoSem.Ret (7 :: bs "NcGt")
+  /\ ImpGen.imp_sequtil_ReverseComplement [] (bs "ax") = GoSem.Panics
+  /\ ImpGen.imp_sequtil_CanonicalSubsequences (bs "ACGTT") 3 = GoSem.Ret [bs "ACG"; bs "ACG"; bs "AAC"]
+  /\ ImpGen.imp_sequtil_CanonicalSubsequences (bs "ACGTT") (-1) = GoSem.Panics
+  /\ ImpProofs.all_bytes (bs "aCgN").
+Proof. vm_compute. repeat split; repeat constructor. Qed.
